@@ -49,6 +49,7 @@ CONSTANTS Methods,    \* subset of {"cosine", "corr", "rho-a", "cosine_cov", "co
           Xforms,     \* set of <<a, b, c>>, a, c > 0: x |-> (a x + b) / c applied to one data RDM
           ByFilter,   \* proto mode: allowed <<rdm descriptor, pattern descriptor>> pairs ({} = all)
           CvCat,      \* value mode, cross-validation: catalogue of fold structures (Case records)
+          MaxCalls,   \* value / trace mode: number of ceilings computed one after the other on ONE data object
           SrcVariants \* proto mode: which SrcOb variants (1 plain, 2 condition twice, 3 RDM twice)
 
 VARIABLES src,    \* the data object (all RDMs, all conditions)
@@ -62,9 +63,10 @@ VARIABLES src,    \* the data object (all RDMs, all conditions)
           upper,  \* [ob, deps]: the prediction pooled from everything
           res,    \* the Score events so far
           cand,   \* the adversary's candidate RDM (<<>> before the move)
-          xf      \* the adversary's transformation of the data RDMs (<<>> before the move)
+          xf,     \* the adversary's transformation of the data RDMs (<<>> before the move)
+          calls   \* the methods of the ceilings computed on this data object before the current one
 
-ncvars == <<objs, hist, fc, folds, stage, src, splits, api, meth, val, pc, g, pred, upper, res, cand, xf>>
+ncvars == <<objs, hist, fc, folds, stage, src, splits, api, meth, val, pc, g, pred, upper, res, cand, xf, calls>>
 
 L == CLen(NC)
 RECURSIVE SumS(_)
@@ -128,24 +130,24 @@ UpperOf(F) == [ob |-> PoolOb(UpperSrc(F)), deps |-> DepTokens(UpperSrc(F))]
 PoolAll == /\ pc = "start"
            /\ upper' = IF api = "boot" THEN [ob |-> PoolOb(src), deps |-> DepTokens(src)] ELSE NoPred
            /\ pc' = "loop"
-           /\ UNCHANGED <<objs, hist, fc, folds, stage, src, splits, api, meth, val, g, pred, res, cand, xf>>
+           /\ UNCHANGED <<objs, hist, fc, folds, stage, src, splits, api, meth, val, g, pred, res, cand, xf, calls>>
 LeaveOut(gg) == /\ pc = "loop" /\ gg = g + 1 /\ gg <= Len(folds)
                 /\ g' = gg /\ pred' = NoPred /\ pc' = "left"
-                /\ UNCHANGED <<objs, hist, fc, folds, stage, src, splits, api, meth, val, upper, res, cand, xf>>
+                /\ UNCHANGED <<objs, hist, fc, folds, stage, src, splits, api, meth, val, upper, res, cand, xf, calls>>
 \* the prediction for group g: the remaining groups only (cv: the training RDMs at the test conditions)
 PoolTrain == /\ pc = "left"
              /\ pred' = [ob |-> AtTest(PoolOb(folds[g].ceil), folds[g]), deps |-> DepTokens(folds[g].ceil)]
              /\ upper' = IF api = "boot" THEN upper ELSE UpperOf(folds[g])
              /\ pc' = "pooled"
-             /\ UNCHANGED <<objs, hist, fc, folds, stage, src, splits, api, meth, val, g, res, cand, xf>>
+             /\ UNCHANGED <<objs, hist, fc, folds, stage, src, splits, api, meth, val, g, res, cand, xf, calls>>
 Score == /\ pc = "pooled"
          /\ res' = Append(res, [g |-> g, predDeps |-> pred.deps, predPats |-> pred.ob.pats,
                                 upPats |-> upper.ob.pats, upDeps |-> upper.deps,
                                 testRows |-> folds[g].test.rows, testPats |-> folds[g].test.pats])
          /\ pc' = "loop"
-         /\ UNCHANGED <<objs, hist, fc, folds, stage, src, splits, api, meth, val, g, pred, upper, cand, xf>>
+         /\ UNCHANGED <<objs, hist, fc, folds, stage, src, splits, api, meth, val, g, pred, upper, cand, xf, calls>>
 Finish == /\ pc = "loop" /\ g = Len(folds) /\ pc' = "done"
-          /\ UNCHANGED <<objs, hist, fc, folds, stage, src, splits, api, meth, val, g, pred, upper, res, cand, xf>>
+          /\ UNCHANGED <<objs, hist, fc, folds, stage, src, splits, api, meth, val, g, pred, upper, res, cand, xf, calls>>
 
 (* ---------------- the adversary ------------------------------------------- *)
 Singleton == \A f \in DOMAIN folds : Len(folds[f].test.rows) = 1
@@ -159,15 +161,15 @@ CandGrid == LET mask == MaskOf(val[1])  n == L - Cardinality(mask) IN
   IF meth = "rho-a" /\ api = "boot"
   THEN {c \in [1..L -> {NaN} \cup (1..n)] : MaskOf(c) = mask /\ Dense(c)}
   ELSE {c \in [1..L -> {NaN} \cup (0..CandMax)] : MaskOf(c) = mask}
-Adversary == /\ pc = "done" /\ Mode = "value" /\ Singleton /\ meth \in {"cosine", "corr", "rho-a"}
+Adversary == /\ pc = "done" /\ Mode = "value" /\ calls = <<>> /\ Singleton /\ meth \in {"cosine", "corr", "rho-a"}
              /\ cand' \in CandGrid /\ pc' = "adv"
-             /\ UNCHANGED <<objs, hist, fc, folds, stage, src, splits, api, meth, val, g, pred, upper, res, xf>>
+             /\ UNCHANGED <<objs, hist, fc, folds, stage, src, splits, api, meth, val, g, pred, upper, res, xf, calls>>
 \* clause e: positive rescaling (cosine type) / positive affine maps (correlation type), one per data RDM
 XfFor(m) == IF m \in CosType THEN {t \in Xforms : t[2] = 0} ELSE Xforms
-Transform == /\ pc = "done" /\ Mode = "value" /\ api = "boot" /\ meth \in CosType \cup CorrType
+Transform == /\ pc = "done" /\ Mode = "value" /\ calls = <<>> /\ api = "boot" /\ meth \in CosType \cup CorrType
              /\ xf' \in {t \in [1..NR -> XfFor(meth)] : \E r \in 1..NR : t[r] # <<1, 0, 1>>}
              /\ pc' = "xf"
-             /\ UNCHANGED <<objs, hist, fc, folds, stage, src, splits, api, meth, val, g, pred, upper, res, cand>>
+             /\ UNCHANGED <<objs, hist, fc, folds, stage, src, splits, api, meth, val, g, pred, upper, res, cand, calls>>
 \* numerator of the transformed row (the common positive divisor c does not change a normalised row)
 XfRow(x, t) == [k \in 1..Len(x) |-> IF x[k] = NaN THEN NaN ELSE t[1] * x[k] + t[2]]
 
@@ -187,7 +189,7 @@ Stacks(mask, by) == {v \in [1..NR -> RowSetOf[mask]] :
 StacksBy == [by \in GroupBys \cup {"subj"} |-> UNION {Stacks(mask, by) : mask \in Masks}]
 
 Common == /\ objs = [o \in 1..MaxObj |-> IF o = 1 THEN Source ELSE Null] /\ hist = <<>> /\ stage = 1
-          /\ pc = "start" /\ g = 0 /\ pred = NoPred /\ upper = NoPred /\ res = <<>> /\ cand = <<>> /\ xf = <<>>
+          /\ pc = "start" /\ g = 0 /\ pred = NoPred /\ upper = NoPred /\ res = <<>> /\ cand = <<>> /\ xf = <<>> /\ calls = <<>>
 VInit == /\ Common
          /\ fc \in {Case(1, "loo_rdm", by, "", 0, 0, FALSE, <<>>) : by \in GroupBys}
          /\ folds = Folds(fc) /\ src = SrcOb(fc.src) /\ splits = SplitsR(fc)
@@ -213,7 +215,7 @@ CopiesOK(c) == /\ c.src # 3 \/ c.byR \in {"subj", "grp"}
 \* two stages so that TLC's workers share the enumeration of the fold structures
 StubOf(c) == Case(c.src, c.gen, c.byR, c.byP, c.kR, c.kP, FALSE, <<>>)
 PInit == /\ objs = [o \in 1..MaxObj |-> IF o = 1 THEN Source ELSE Null] /\ hist = <<>> /\ stage = 1
-         /\ pc = "choose" /\ g = 0 /\ pred = NoPred /\ upper = NoPred /\ res = <<>> /\ cand = <<>> /\ xf = <<>>
+         /\ pc = "choose" /\ g = 0 /\ pred = NoPred /\ upper = NoPred /\ res = <<>> /\ cand = <<>> /\ xf = <<>> /\ calls = <<>>
          /\ fc \in {StubOf(c) : c \in {c \in UNION {CasesOf(v) : v \in SrcVariants} : CopiesOK(c)}}
          /\ folds = <<>> /\ src = Null /\ splits = FALSE /\ api = "" /\ meth \in Methods /\ val = TokVal
 ChooseCase == /\ pc = "choose"
@@ -221,9 +223,15 @@ ChooseCase == /\ pc = "choose"
               /\ folds' = Folds(fc') /\ src' = SrcOb(fc'.src) /\ splits' = SplitsR(fc')
               /\ api' \in (IF fc'.gen = "loo_rdm" THEN {"boot", "cv"} ELSE {"cv"})
               /\ pc' = "start"
-              /\ UNCHANGED <<objs, hist, stage, meth, val, g, pred, upper, res, cand, xf>>
+              /\ UNCHANGED <<objs, hist, stage, meth, val, g, pred, upper, res, cand, xf, calls>>
 
-NcNext == \/ ChooseCase \/ PoolAll \/ (\E gg \in 1..Len(folds) : LeaveOut(gg)) \/ PoolTrain \/ Score \/ Finish
+\* a further ceiling with another method on the SAME data object: the data (val, src) are not an output of any
+\* action - both bounds are a function of the data and the method only, whatever was computed before
+NextCall(m) == /\ pc = "done" /\ Len(calls) + 1 < MaxCalls
+               /\ calls' = Append(calls, meth) /\ meth' = m
+               /\ pc' = "start" /\ g' = 0 /\ pred' = NoPred /\ upper' = NoPred /\ res' = <<>>
+               /\ UNCHANGED <<objs, hist, fc, folds, stage, src, splits, api, val, cand, xf>>
+NcNext == \/ (\E m \in Methods : NextCall(m)) \/ ChooseCase \/ PoolAll \/ (\E gg \in 1..Len(folds) : LeaveOut(gg)) \/ PoolTrain \/ Score \/ Finish
           \/ Adversary \/ Transform
 
 (* ---------------- invariants: the leave-one-out clauses --------------------- *)
@@ -262,6 +270,9 @@ NcLooPartition == (pc = "done" /\ fc.gen = "loo_rdm" /\ Len(folds) > 1) =>
 \* entries missing from all RDMs: the mask is common, and no quantity depends on a missing entry
 NcCommonMask == (Mode = "value" /\ pc = "start") => \A r \in 1..NR : MaskOf(val[r]) = MaskOf(val[1])
 
+\* computing a ceiling does not alter the data
+DataFrame == [][val' = val /\ (pc # "choose" => src' = src)]_ncvars
+
 (* ---------------- theorems on the definition of Pool (value mode) ----------- *)
 \* tie-averaged ranks: the doubled ranks of n entries sum to n(n+1)
 RankSum == pc = "start" /\ Mode = "value" =>
@@ -289,7 +300,7 @@ FoldStat(f) == LET F == folds[f]  rows == ObVals(F.ceil)  trows == ObVals(F.test
     nt |-> Len(trows), tt |-> F.test.vec[1]]
 EmitNC ==
   /\ (pc = "done" /\ Mode = "value") =>
-        PrintT(ToJson([t |-> "stack", api |-> api, case |-> fc, by |-> fc.byR, meth |-> meth, val |-> val,
+        PrintT(ToJson([t |-> "stack", api |-> api, case |-> fc, by |-> fc.byR, meth |-> meth, val |-> val, prev |-> calls,
                        all |-> PoolStat(meth, val),
                        loo |-> [f \in DOMAIN folds |-> FoldStat(f)]]))
   /\ pc = "adv" => PrintT(ToJson([t |-> "cand", api |-> api, case |-> IF api = "cv" THEN fc ELSE <<>>, by |-> fc.byR,
